@@ -24,6 +24,7 @@ type genCtx struct {
 	emit         func(string)
 	prec         uint64 // droplet multiple for valid amounts (10^(6-prec))
 	burn         uint64
+	bigCoins     bool
 	avoidPending bool
 	conflictPct  int
 	spent        []cipher.SHA256    // inputs of accepted blocks (for re-spend attempts)
@@ -230,6 +231,8 @@ func (g *genCtx) makeTxn(n *node, kind string) (coin.Transaction, bool) {
 		}
 	case "hours+":
 		outHours = hours + 1 + uint64(r.Intn(5))
+	case "hours+1":
+		outHours = hours + 1
 	}
 	hsplit := make([]uint64, len(amounts))
 	remH := outHours
@@ -251,6 +254,12 @@ func (g *genCtx) makeTxn(n *node, kind string) (coin.Transaction, bool) {
 	}
 	spec := txnSpec{ins: ins, outs: outs, signer: func(i int) cipher.SecKey { return ownerKey(ins[i]) }}
 	switch kind {
+	case "coins+1": // exactly one droplet created / destroyed: the boundary of the balance check
+		spec.outs[0].Coins++
+	case "coins-1":
+		if spec.outs[0].Coins > 1 {
+			spec.outs[0].Coins--
+		}
 	case "coins+":
 		spec.outs[0].Coins += unit
 	case "coins-":
@@ -326,7 +335,7 @@ func (g *genCtx) makeTxn(n *node, kind string) (coin.Transaction, bool) {
 	return t, true
 }
 
-var badKinds = []string{"nofee", "lowfee", "hours+", "coins+", "coins-", "zerocoin", "dupout", "unknown-in", "dup-in",
+var badKinds = []string{"nofee", "lowfee", "hours+", "hours+1", "coins+", "coins-", "coins+1", "coins-1", "zerocoin", "dupout", "unknown-in", "dup-in",
 	"wrong-signer", "badsig", "unsigned", "precision", "outhours-ovf", "length", "type", "innerhash", "null-addr", "respend"}
 
 func txHex(t *coin.Transaction) string {
@@ -426,6 +435,7 @@ func genHistory(g *genCtx, profile string) {
 	if world == nil {
 		return
 	}
+	g.bigCoins = gc >= 1<<62
 	nOps := 8 + r.Intn(18)
 	g.avoidPending = r.Chance(60)
 	g.conflictPct = 20
@@ -470,6 +480,10 @@ func (g *genCtx) inject(t *coin.Transaction) {
 func (g *genCtx) nextWhen() uint64 {
 	hb, _ := g.node("P").v.GetHeadBlock()
 	dt := uint64(1 + g.r.Intn(100000))
+	if g.bigCoins && g.r.Chance(50) {
+		// coin-hour accrual overflows for huge outputs after long gaps
+		dt = g.r.U64() >> uint(g.r.Intn(24)+8)
+	}
 	switch g.r.Intn(8) {
 	case 0:
 		dt = 1
@@ -548,7 +562,7 @@ func (g *genCtx) step(profile string) {
 			t := g.pending[r.Intn(len(g.pending))]
 			g.inject(&t)
 		}
-	case c < 70: // publisher makes a block from its pool; both nodes execute it
+	case c < 70 && !(g.bigCoins && r.Chance(50)): // publisher makes a block from its pool; both nodes execute it
 		when := g.nextWhen()
 		g.emit("mkblock " + u(when))
 		if sb := lastMade; sb != nil {
@@ -561,7 +575,7 @@ func (g *genCtx) step(profile string) {
 				g.emit("exec F " + encodeBlock(sb)) // duplicate delivery
 			}
 		}
-	case c < 82: // hand-forged block signed by the real publisher key: arbitrary transaction lists
+	case c < 82 || (g.bigCoins && c < 70): // hand-forged block signed by the real publisher key: arbitrary transaction lists
 		g.forged(P, F)
 	case c < 88:
 		g.emit("refresh " + []string{"P", "F"}[r.Intn(2)])
@@ -569,13 +583,17 @@ func (g *genCtx) step(profile string) {
 		g.emit("rminv " + []string{"P", "F"}[r.Intn(2)])
 	case c < 96:
 		g.emit("checkdb " + []string{"P", "F"}[r.Intn(2)])
-	case c < 98: // stale block replay
+	case c < 97: // stale block replay
 		if len(g.blocks) > 0 {
 			b := g.blocks[r.Intn(len(g.blocks))]
 			g.emit("exec F " + encodeBlock(&b))
 		}
 	default:
-		g.emit("restart " + []string{"P", "F"}[r.Intn(2)])
+		if r.Chance(50) {
+			g.emit("restart " + []string{"P", "F"}[r.Intn(2)])
+		} else {
+			g.emit("rebuild " + []string{"P", "F"}[r.Intn(2)] + " " + []string{"history", "histtxns", "addrindex"}[r.Intn(3)])
+		}
 	}
 }
 
@@ -683,6 +701,12 @@ func (g *genCtx) forged(P, F *node) {
 	if r.Chance(15) {
 		txns = append(txns, txns[0]) // same transaction twice in one block
 	}
+	if r.Chance(25) {
+		// two transactions of the block share an input that is NOT the first input of either
+		if a, b, ok := g.sharedLaterInput(P); ok {
+			txns = append(txns, a, b)
+		}
+	}
 	if r.Chance(40) && len(g.pending) > 0 { // also use pool transactions
 		txns = append(txns, g.pending[r.Intn(len(g.pending))])
 	}
@@ -759,12 +783,15 @@ func crashGen(r *Rng, tier string, emit func(string)) {
 					lastMade = nil
 					g.execBoth(sb)
 				}
-			case c < 92:
+			case c < 90:
 				g.emit("refresh F")
-			default:
+			case c < 95:
 				g.emit("rminv F")
+			default:
+				g.emit("rebuild F " + []string{"history", "histtxns", "addrindex"}[r.Intn(3)])
 			}
 		}
+		g.emit("rebuild F " + []string{"history", "histtxns", "addrindex"}[r.Intn(3)])
 		g.emit("rminv F")
 		last := len(c8Snaps) - 1 // index of the last snapshot
 		// boundaries to restart from: always the three start-up ones + a sample (all in thorough)
@@ -785,7 +812,7 @@ func crashGen(r *Rng, tier string, emit func(string)) {
 				emit(strings.Join(f, " "))
 			}
 			emit("c8same")
-			if k < last {
+			if c8Adjacent(k) {
 				for _, v := range []string{"pages:0", "pages:1", "pages:2", "pages:99", "tornmeta"} {
 					if tier == "thorough" || r.Chance(40) {
 						emit("c8fork " + strconv.Itoa(k) + " " + v)
@@ -794,4 +821,33 @@ func crashGen(r *Rng, tier string, emit func(string)) {
 			}
 		}
 	}
+}
+
+// sharedLaterInput builds two otherwise valid transactions whose LAST inputs are the same output
+func (g *genCtx) sharedLaterInput(n *node) (coin.Transaction, coin.Transaction, bool) {
+	uxs, headTime := spendable(n)
+	var ok coin.UxArray
+	for _, u := range uxs {
+		if i := addrIndex[u.Body.Address]; i < 6 {
+			ok = append(ok, u)
+		}
+	}
+	if len(ok) < 3 {
+		return coin.Transaction{}, coin.Transaction{}, false
+	}
+	p := g.r.Intn(len(ok))
+	shared, a0, b0 := ok[p], ok[(p+1)%len(ok)], ok[(p+2)%len(ok)]
+	mk := func(first coin.UxOut) coin.Transaction {
+		ins := coin.UxArray{first, shared}
+		var coins, hours uint64
+		for _, u := range ins {
+			coins += u.Body.Coins
+			if h, err := u.CoinHours(headTime); err == nil {
+				hours += h
+			}
+		}
+		outs := []coin.TransactionOutput{{Address: keys[g.r.Intn(6)].addr, Coins: coins, Hours: hours / 4}}
+		return buildTxn(txnSpec{ins: ins, outs: outs, signer: func(i int) cipher.SecKey { return ownerKey(ins[i]) }})
+	}
+	return mk(a0), mk(b0), true
 }
